@@ -17,9 +17,9 @@ import (
 func init() {
 	register(&Rule{
 		Name:     "TWINCMP",
-		Doc:      "for every pair of methods of one receiver type whose names differ only by `List`/`Set` (a thrift set is encoded exactly like a list), the multiset of ordered comparisons — operator normalised for operand order, operands classified as constant k / call of F / parameter / other — is the same in both: a bound that is `>` in one twin and `>=` in the other makes the two containers accept different inputs",
+		Doc:      "for every pair of methods of one receiver type whose names differ only by `List`/`Set` (a thrift set is encoded exactly like a list) or by the suffix `WithoutMove` (the peeking twin of a reader), the multiset of ordered comparisons — operator normalised for operand order, operands classified as constant k / call of F / parameter / other — is the same in both: a bound that is `>` in one twin and `>=` in the other makes the two containers accept different inputs",
 		Configs:  "NP",
-		Floor:    map[string]int{"N": 2, "P": 2},
+		Floor:    map[string]int{"N": 5, "P": 5},
 		Controls: 1,
 		Run:      runTwinCmp,
 	})
@@ -98,10 +98,16 @@ func runTwinCmp(rc *RuleCtx) {
 	sort.Strings(names)
 	for _, n := range names {
 		fn := byName[n]
-		if !strings.Contains(fn.Name(), "Set") {
+		var twinName string
+		switch {
+		case strings.HasSuffix(fn.Name(), "WithoutMove"):
+			// a peeking twin (ConsumeTagWithoutMove) must accept and reject what the moving one does
+			twinName = strings.TrimSuffix(n, "WithoutMove")
+		case strings.Contains(fn.Name(), "Set"):
+			twinName = strings.TrimSuffix(n, fn.Name()) + strings.Replace(fn.Name(), "Set", "List", 1)
+		default:
 			continue
 		}
-		twinName := strings.TrimSuffix(n, fn.Name()) + strings.Replace(fn.Name(), "Set", "List", 1)
 		twin, ok := byName[twinName]
 		if !ok {
 			continue
